@@ -151,7 +151,8 @@ Qed.
 Lemma rr_loop_bview x : forall is_ st, bview (fst (rr_loop st x is_)) = bview st.
 Proof.
   induction is_ as [|i rest IH]; intros st; cbn [rr_loop]; [reflexivity|].
-  destruct (get_round st i) as [tr|]; [|reflexivity].
+  destruct (get_round st i) as [tr|];
+    [|destruct (lower_bound st) as [lb0|]; [destruct (i <=? lb0); [apply IH|reflexivity]|reflexivity]].
   destruct (get_peerset st i) as [tps|]; [|apply bview_fail].
   destruct (witnesses_decided tr tps) as [d tr'].
   set (st1 := st <| rounds := zset i tr' (rounds st) |>).
